@@ -10,7 +10,7 @@ def gen_pred_case(rng, model=None, regime=None, kmax=8, pmax=8):
     model = model or rng.choice(MODEL_NAMES)
     cfg = gen.gen_cfg(rng)
     explicit = regime is not None
-    regime = regime or rng.choice(["typical", "typical", "wide", "mismatch", "tiny_sigma", "huge_sigma", "corners",
+    regime = regime or rng.choice(["typical", "typical", "wide", "mismatch", "tiny_sigma", "huge_sigma", "corners", "round_numbers",
                                    "identical", "equal_size"])
     teams, regime = gen.gen_teams(rng, cfg["beta"], kmax=kmax, pmax=pmax, regime=regime)
     if regime == "identical" and len(teams) >= 3 and rng.random() < 0.5:
